@@ -90,6 +90,21 @@ CLAIMED = {
              'statement is checked on traces of the real sender, not proved (session model pending). Proved for the code after fixes b4cec97, dd102c0. No axioms.',
         technique='Coq proof: potential/supply argument by induction over clock readings (Q, lra/nra), liveness by state-invariance of failed readings; scripted-clock correspondence',
         design='6 (C18)'),
+    'C14': dict(
+        text='Coq theorems (Props/C14.v) over an executable model of SimpleCorrelator (request store, segment stores, expired(), put/get) in '
+             'which the expiry sweep is cut at every await: a run is ANY sequence of begin / one-sweep-iteration / finish events of concurrent '
+             'tasks, so every schedule and every suspension of the send_error hook is covered. Proved for all runs: an entry is expired only when '
+             'more than the TTL has elapsed since it was stored; no entry is expired twice and none is both expired and matched by a response; every '
+             'call (the first request after the TTL, keep-alive probes included) sweeps everything present when it begins and leaves nothing '
+             'overdue when its sweep is done; an expiring plain SubmitSm is reported as itself. Tied to the code by driving the real '
+             'SimpleCorrelator with three concurrent tasks, a suspending recording hook and a scripted clock and comparing hook calls, get results and '
+             'final stores with the model evaluated in Coq; an oracle checks the hook log directly.',
+        note='Trusted: Coq kernel, harness (scripted time.monotonic in correlator.py), asyncio cooperative scheduling. Part (d) of the design '
+             '(a response arriving within the TTL always finds its request) is REFUTED for the session: known finding '
+             'response-before-put-under-backpressure (reproduced on the real ESME with a paused transport; witness theorem in Props/C14.v). '
+             'Proved for the code after fix 6160d29 (the sweep no longer raises KeyError). No axioms.',
+        technique='Coq invariant proof (ownership counting + sweep-coverage invariant) by induction over arbitrary event interleavings; trace correspondence with suspending hooks',
+        design='6 (C14)'),
 }
 
 PENDING_REASON = 'check not built yet in this round (planned, see DESIGN.md section 6); not claimed until its proof and correspondence run exist'
